@@ -5,7 +5,7 @@
 //
 //   bil  vt F w h D ny nx0 n step   bilinear_sampler at the points ((nx0+i*step)/D, ny/D), i<n: one token per point:
 //   near vt F w h D ny nx0 n step   nearest_neighbor_sampler      `o` = reported outside, result untouched; `X` = outside but result modified;
-//                                                                  else the channel values c0,c1,.. of the result (g32f: value*64)
+//                                                                  else the channel values c0,c1,.. of the result (g32f: value*256)
 //   tap  k F w h D ny nx0 n step    k = b|n: the sampler on a VIRTUAL view whose dereference function records the coordinates it is asked for:
 //                                   per point `o` or the dereferenced coordinates x:y,x:y,.. in order (what the sampler reads)
 //   res  vt s w h dw dh a b c d e f resample_pixels(src w*h, dst dw*dh, matrix3x2<double>(a/8,..,f/8), s = b|n): all dst channel values row-major
@@ -37,7 +37,7 @@ template <> struct chan_io<int8_t> {
     static std::string show(int8_t const& c) { return std::to_string((long long)c); } };
 template <> struct chan_io<gil::float32_t> {
     static gil::float32_t make(long v) { return gil::float32_t((float)v); }
-    static std::string show(gil::float32_t const& c) { float f = c; return std::to_string((long long)std::llround((double)f * 64.0)); } };
+    static std::string show(gil::float32_t const& c) { float f = c; return std::to_string((long long)std::llround((double)f * 256.0)); } };
 
 struct fill_fn { ptrdiff_t x, y; int c = 0; template <typename C> void operator()(C& ch) { ch = chan_io<C>::make(val(x, y, c++)); } };
 struct sent_fn { template <typename C> void operator()(C& ch) { ch = chan_io<C>::make(7 + 100 * std::is_same<C, int8_t>::value); } };
